@@ -115,6 +115,14 @@ Theorem C02_bstadapted1d_zero_uniform_refuted :
   /\ mass (ba_cell_a axis mid_arith 0) (ba_cell_b axis mid_arith 0) == 0.
 Proof. exact bstadapted1d_zero_uniform_refuted. Qed.
 
+(* F-C02-7 (recorded finding, current tree): with inadmissible indices in the enumeration (n-d grids whose origin is
+   not centred) the sampler restarts at the wrong index once the storage (_max_storage) is full: wrong law *)
+Theorem C02_inversion_overflow_refuted :
+  exists st, inv_init (fun i => i) ov_inside 3 ov_prob = Some st
+             /\ snd (inv_step (fun i => i) ov_inside 3 ov_prob 2 st (9 # 10)) = Out 2%Z
+             /\ snd (inv_step (fun i => i) ov_inside 3 ov_prob 1000000 st (9 # 10)) = Out 3%Z.
+Proof. exact inversion_overflow_refuted. Qed.
+
 (* non-vacuity: the models compute, on a vector with a zero and a tie *)
 Example C02_nonvacuous :
   let p := [1 # 4; 0; 1 # 2; 1 # 4] in
@@ -135,3 +143,4 @@ Print Assumptions C02_table_law.
 Print Assumptions C02_no_history.
 Print Assumptions C02_inversion_zero_uniform_refuted.
 Print Assumptions C02_bstadapted1d_zero_uniform_refuted.
+Print Assumptions C02_inversion_overflow_refuted.
